@@ -4,6 +4,7 @@ mod sched;
 mod case;
 mod ring;
 mod uni;
+mod pool;
 
 use std::io::{BufRead, Write};
 
@@ -24,6 +25,7 @@ fn main() {
             "ring" => ring::run(&case),
             "fsring" => ring::run_fs(&case),
             "uni"  => uni::run(&case),
+            "pool" => pool::run(&case),
             other  => panic!("unknown case kind '{other}'"),
         };
         let text: Vec<String> = trace.iter().map(|v| v.to_string()).collect();
